@@ -8,7 +8,7 @@ CHECK = {
     "units": [
         unit("issue", "pki", ["pki/cx_common_test.go", "pki/c15_model_test.go", "pki/c15_issue_test.go"], "^TestVerif_C15_",
              quick={"checks": 1500, "shards": 1, "cap": 600},
-             thorough={"checks": 8000, "shards": 16, "cap": 1500},
+             thorough={"checks": 25000, "shards": 16, "cap": 1500},
              floors={"issue": {"issued": 0.05, "refused": 0.05, "nontrivial": 0.05}},
              # serial numbers and generated keys come from crypto/rand and the seen-serial set lives as long as the
              # memoised mount, so a serial collision need not recur when rapid re-runs the case; every verdict is a
